@@ -22,6 +22,7 @@ package seccomp
 
 import (
 	"fmt"
+	"runtime"
 	"syscall"
 	"unsafe"
 
@@ -65,6 +66,11 @@ func LoadFilter(filter Filter) error {
 	}
 
 	if filter.NoNewPrivs {
+		// no_new_privs is a per-thread attribute. Stay on this thread until the filter
+		// is installed, otherwise an unprivileged load fails after a migration.
+		runtime.LockOSThread()
+		defer runtime.UnlockOSThread()
+
 		if err = SetNoNewPrivs(); err != nil {
 			return fmt.Errorf("failed to set no_new_privs with prctl: %w", err)
 		}
